@@ -446,3 +446,47 @@ func ZZ_C14_S2() {
 	zzverif.Assert(prop.MajorityPower == (total*2)/3, "S2 majority follows")
 	zzverif.Reach("S2 end")
 }
+
+// ZZ_C15_G8: a vote that was only checked (mempool, Exec == false) is not a
+// vote: it neither shows in the consensus view nor is it carried into the
+// committed proposal by a later delivered vote of somebody else.
+func ZZ_C15_G8() {
+	g := zzNewGov(0)
+	o0, _ := zzOption("opt0", 1<<16)
+	o1, _ := zzOption("opt1", 1<<7)
+	opts := [][]byte{o0, o1}
+	sp := g.seedProposal(zzHash(0), 5, 10, 30, 2, 2, opts, "p")
+	_, _, _ = g.gc.Commit()
+	g.height = zzverif.NondetI64In("height", 5, 15)
+	checker := zzverif.Choose("checked.voter", 2)
+	c0 := int32(zzverif.Choose("checked.choice", 2))
+	ctx := g.txctx(checker, types.ZeroAddress(), ctrlertypes.TRX_VOTING, &ctrlertypes.TrxPayloadVoting{TxHash: zzHash(0), Choice: c0}, zzHash(8))
+	ctx.Exec = false
+	_ = g.exec(ctx)
+	// a delivered vote of the other voter
+	other := 1 - checker
+	c1 := int32(zzverif.Choose("delivered.choice", 2))
+	if g.exec(g.txctx(other, types.ZeroAddress(), ctrlertypes.TRX_VOTING, &ctrlertypes.TrxPayloadVoting{TxHash: zzHash(0), Choice: c1}, zzHash(9))) {
+		sp.choices[other] = c1
+		zzverif.Reach("G8 delivered vote accepted")
+	}
+	check := func(prop *proposal.GovProposal, tag string) {
+		zzverif.Assert(prop != nil, tag+": proposal present")
+		if prop == nil {
+			return
+		}
+		for o, ob := range opts {
+			zzverif.Assert(zzOptVotes(prop, ob) == sp.tally(o), tag+": option tally = delivered votes only")
+		}
+		for i := 0; i < 2; i++ {
+			v := prop.Voters[zzAddr(i).String()]
+			zzverif.Assert(v != nil && v.Choice == sp.choices[i], tag+": a voter's recorded choice is its latest delivered vote")
+		}
+	}
+	fin, _ := g.gc.proposalLedger.GetFinality(ledger.ToLedgerKey(zzHash(0)))
+	check(fin, "G8 consensus view")
+	_, _, _ = g.gc.Commit()
+	com, _ := g.gc.proposalLedger.Read(ledger.ToLedgerKey(zzHash(0)))
+	check(com, "G8 committed")
+	zzverif.Reach("G8 end")
+}
